@@ -748,14 +748,40 @@ func ruleC01UserMethods(p *Prog, a *Anchors, r *Report) {
 				if ex, isEx := recv.(*ssa.Extract); isEx {
 					recv = ex.Tuple
 				}
+				if up := unspillParam(recv); up != nil {
+					recv = up
+				}
 				switch rv := recv.(type) {
+				case *ssa.Call:
+					// Error() of the error a package function handed back: a context function's own error value
+					// travels through the resolver as it is (resolve → Evaluate), so its Error method is caller code
+					if m.Name() != "Error" || !c01MayBeCallersError(p, rv, 0) {
+						continue
+					}
 				case *ssa.TypeAssert:
 					if it, isI := rv.X.Type().Underlying().(*types.Interface); !isI || it.NumMethods() != 0 {
 						continue
 					}
 				case *ssa.Parameter:
-					// a helper that is handed the asserted value: String() on a parameter of an interface type
-					// declared outside the package (fmt.Stringer)
+					// a helper that is handed the value: Error() on an `error` parameter for which some caller passes
+					// an error that may be the caller's own …
+					if m.Name() == "Error" && types.Identical(rv.Type(), types.Universe.Lookup("error").Type()) {
+						may := false
+						for _, s := range paramActualSites(p, rv) {
+							v := s.val
+							if ex, isEx := v.(*ssa.Extract); isEx {
+								v = ex.Tuple
+							}
+							if cc, isC := v.(*ssa.Call); isC && c01MayBeCallersError(p, cc, 0) {
+								may = true
+							}
+						}
+						if !may {
+							continue
+						}
+						break
+					}
+					// … String() on a parameter of an interface type declared outside the package (fmt.Stringer)
 					nt, isN := rv.Type().(*types.Named)
 					if !isN || m.Name() != "String" || nt.Obj().Pkg() == nil || nt.Obj().Pkg() == a.ExecCtx.Obj().Pkg() {
 						continue
@@ -905,16 +931,22 @@ func ruleC01Budget(p *Prog, a *Anchors, r *Report) {
 		}
 	}
 	sort.Strings(eParts)
+	// the budget of the platform the tree is built for: 64-bit Go stacks end at 10⁹ bytes (in effect 2²⁹), 32-bit ones
+	// at 2.5·10⁸ (in effect 2²⁷), where a level costs about 0.7 KB (measured: 692 bytes for a subscript level on 386)
+	budget, budgetWhy := int64(stackBudgetLevels), "64-bit: in effect 512 MB at up to 1.3 KB per level"
+	if p.Pkg != nil && p.Pkg.TypesSizes != nil && p.Pkg.TypesSizes.Sizeof(types.Typ[types.Uintptr]) == 4 {
+		budget, budgetWhy = (1<<27)/700, "32-bit: in effect 128 MB at up to 0.7 KB per level"
+	}
 	desc := "N = " + strings.Join(nParts, " + ") + "; E = " + strings.Join(eParts, " + ")
 	switch {
 	case nLevels == 0:
 		r.Bad("nesting × recursion", "-", "no constant bound on the nesting of a source was found (a parser/template counter compared with a constant, refusing with an error): one activation of a macro can put arbitrarily many frames on the stack")
 	case eLevels == 0:
 		r.Unk("nesting × recursion", "-", "no execution-time recursion bound was found")
-	case nLevels*eLevels > stackBudgetLevels:
-		r.Bad("nesting × recursion", "-", "%s: %d·%d = %d counted levels can be on the stack at once, more than the %d that fit Go's stack (in effect 512 MB) at up to 1.3 KB each — a macro whose body nests its recursive call deeply exhausts the stack before a depth error is reached, which ends the process", desc, nLevels, eLevels, nLevels*eLevels, stackBudgetLevels)
+	case nLevels*eLevels > budget:
+		r.Bad("nesting × recursion", "-", "%s: %d·%d = %d counted levels can be on the stack at once, more than the %d that fit Go's stack on this platform (%s) — a macro whose body nests its recursive call deeply exhausts the stack before a depth error is reached, which ends the process", desc, nLevels, eLevels, nLevels*eLevels, budget, budgetWhy)
 	default:
-		r.OK("nesting × recursion", "-", "%s: %d·%d = %d ≤ %d counted levels", desc, nLevels, eLevels, nLevels*eLevels, stackBudgetLevels)
+		r.OK("nesting × recursion", "-", "%s: %d·%d = %d ≤ %d counted levels (%s)", desc, nLevels, eLevels, nLevels*eLevels, budget, budgetWhy)
 	}
 }
 
@@ -1792,4 +1824,69 @@ func ruleC01PerRendering(p *Prog, a *Anchors, r *Report) {
 			r.Bad(key, p.Pos(ex.Pos()), "the context of a template executed by another one (include, ssi) does not take over ExecutionContext.%s: every nested template counts its nesting from zero, and a macro reaching itself through included templates is never stopped", st.Field(recIdx).Name())
 		}
 	}
+}
+
+// c01MayBeCallersError: the error result of this call of a package function can be a value that registered or
+// context code made (it was taken out of a reflect.Value or out of an `any`), as opposed to one the engine built
+// (fmt.Errorf, errors.New, an *Error).
+func c01MayBeCallersError(p *Prog, c *ssa.Call, depth int) bool {
+	callee := c.Common().StaticCallee()
+	if callee == nil || callee.Blocks == nil || !p.InPkg(callee) || depth > 2 {
+		return false
+	}
+	ei := -1
+	res := callee.Signature.Results()
+	for i := 0; i < res.Len(); i++ {
+		if types.Identical(res.At(i).Type(), types.Universe.Lookup("error").Type()) {
+			ei = i
+		}
+	}
+	if ei < 0 {
+		return false
+	}
+	var from func(v ssa.Value, d int) bool
+	seen := map[ssa.Value]bool{}
+	from = func(v ssa.Value, d int) bool {
+		if v == nil || seen[v] || d > 8 {
+			return false
+		}
+		seen[v] = true
+		switch x := v.(type) {
+		case *ssa.TypeAssert:
+			// taken out of an interface value: reflect's Interface(), an `any`
+			if it, isI := x.X.Type().Underlying().(*types.Interface); isI && it.NumMethods() == 0 {
+				return true
+			}
+		case *ssa.Extract:
+			if cc, ok := x.Tuple.(*ssa.Call); ok {
+				return c01MayBeCallersError(p, cc, depth+1)
+			}
+			return from(x.Tuple, d+1)
+		case *ssa.Phi:
+			for _, e := range x.Edges {
+				if from(e, d+1) {
+					return true
+				}
+			}
+		case *ssa.UnOp:
+			if cell, ok := x.X.(*ssa.Alloc); ok {
+				for _, sv := range allStoresTo(cell) {
+					if from(sv, d+1) {
+						return true
+					}
+				}
+			}
+		case *ssa.ChangeInterface:
+			return from(x.X, d+1)
+		case *ssa.Call:
+			return c01MayBeCallersError(p, x, depth+1)
+		}
+		return false
+	}
+	for _, ret := range returnsOf(callee) {
+		if ei < len(ret.Results) && from(ret.Results[ei], 0) {
+			return true
+		}
+	}
+	return false
 }
